@@ -731,7 +731,8 @@ def run(tier, seed):
             chk.undecide('%s: %s' % (name, detail))
     chk.bounded = {'rule': 'BOUNDED: #include names and require() strings built from up to %d fragments of {name, ., .., /, sub/, ../, '
                            'prefix-sharing siblings, absolute paths, ?, ;} in a directory layout with canary files outside every root; x load '
-                           'paths {default, relative, absolute, PICO8_LUA_PATH}; every path opened or found by isfile is recorded'
+                           'paths {default, relative, absolute, PICO8_LUA_PATH}; the current directory holds canaries of its own; carts inside, next to and in '
+                           'prefix-sharing siblings of a recognised PICO-8 carts folder under HOME; every path opened or found by isfile is recorded'
                            % (3 if tier == 'thorough' else 2), 'evaluations': nat.get('n', 0), 'failures': len(nat.get('bad', []))}
     if nat.get('bad') and not chk.violations:
         chk.violation('BOUNDED:c12/a file outside the permitted directories was opened or probed', {'witness': nat['bad'][:4]}, True)
